@@ -124,6 +124,13 @@ func TestVerifC11Asm(t *testing.T) {
 			f.GC = n
 			f.Section = n
 			f.FuncAttrs = append(f.FuncAttrs, ir.AttrString(n), ir.AttrPair{Key: n, Value: n})
+			f.Partition = n
+			al := m.NewAlias("al", g)
+			al.Partition = n
+			rs := m.NewFunc("rs", types.NewPointer(f.Sig))
+			rs.NewBlock("").NewRet(f)
+			ifn := m.NewIFunc("ifn", rs)
+			ifn.Partition = n
 			m.SourceFilename = n
 			m.ModuleAsms = append(m.ModuleAsms, n)
 			text := m.String()
@@ -140,6 +147,15 @@ func TestVerifC11Asm(t *testing.T) {
 				if got != n {
 					fail("string %q printed as %s of the module is read back as %q", n, what, got)
 				}
+			}
+			if len(m2.Aliases) != 1 || m2.Aliases[0].Partition != n {
+				fail("string %q printed as partition of an alias is not read back", n)
+			}
+			if len(m2.IFuncs) != 1 || m2.IFuncs[0].Partition != n {
+				fail("string %q printed as partition of an ifunc is not read back", n)
+			}
+			if f2.Partition != n {
+				fail("string %q printed as partition of a function is read back as %q", n, f2.Partition)
 			}
 			okS, okP := false, false
 			for _, a := range f2.FuncAttrs {
